@@ -23,10 +23,11 @@ func ScanPngHeader(r io.ReadSeeker) (header meta.ExifHeader, err error) {
 	buf := make([]byte, 8)
 
 	var n int
-	n, err = r.Read(buf)
-	if err != nil {
+	n, err = io.ReadFull(r, buf)
+	if err != nil && err != io.ErrUnexpectedEOF {
 		return
 	}
+	err = nil
 
 	if n != len(signature) || string(buf) != signature {
 		err = meta.ErrNoExif
@@ -36,7 +37,7 @@ func ScanPngHeader(r io.ReadSeeker) (header meta.ExifHeader, err error) {
 
 	for {
 		// 5.3 Chunk layout
-		n, err = r.Read(buf)
+		n, err = io.ReadFull(r, buf)
 		if err != nil {
 			break
 		}
